@@ -49,7 +49,7 @@ UBSAN_OPTIONS = "print_stacktrace=1:halt_on_error=1"
 VALGRIND_EXIT = 97
 VALGRIND = ["valgrind", "-q", "--error-exitcode=%d" % VALGRIND_EXIT, "--exit-on-first-error=yes",
             "--leak-check=no", "--track-origins=no", "--num-callers=30"]
-TIMEOUT = 10.0          # per-input watchdog
+TIMEOUT = 20.0          # per-input watchdog
 RSS_LIMIT_MB = int(os.environ.get("VERIF_CXX_RSS_MB", "6144"))   # resident-set watchdog (kind "oom")
 SER_CHUNK = 48          # build-side entries per translation unit
 PARSE_CHUNK = 24        # parse-side types per translation unit
@@ -373,7 +373,9 @@ def classify(report, rc, timed_out, header_name, valgrind=False):
     kind = None
     ma = _ASSERT.search(report)
     mu = _UBSAN.search(report)
-    if timed_out:
+    if timed_out and not (ma or mu or "ERROR: AddressSanitizer" in report or "PV-EXCEPTION:" in report):
+        # (a process that has already printed a sanitizer report / failed assertion and is then slow to
+        # die - symbolizing its stack on a loaded machine - is that report, not a hang)
         kind = "timeout"
     elif ma:
         kind = "assert"
